@@ -51,3 +51,14 @@ package logql_transpiler_v2
 //@   flag defers-first=shared.TamePanic
 //@   flag defers-before=close<shared.TamePanic
 //@   flag may-panic
+
+// Zero rows are dropped from a matrix result before re-bucketing: a row with a
+// non-zero value is buffered once, and the buffer is handed over and emptied at the
+// end of every batch - whatever was forwarded is never forwarded again.
+//@ func (*ZeroEaterPlanner).Process$1 [C08]
+//@   flag checks=-index,-assert
+//@   check non-zero-row-buffered-once: entry.Value != 0 ==> len(_entries) == old(len(_entries)) + 1
+//@   check zero-row-dropped: entry.Value == 0 ==> len(_entries) == old(len(_entries))
+//@ func (*ZeroEaterPlanner).Process$2 [C08]
+//@   flag checks=-index,-assert
+//@   check buffer-empty-after-every-batch: len(_entries) == 0
